@@ -553,7 +553,7 @@ fn main() {
     rep.assume("zero-length lists/strings allocate nothing and free nothing; cabi_dealloc(ptr, 0, _) is a no-op");
     rep.assume("lists lifted by the callee are owned by the callee: only blocks allocated by the lowering under test are tracked");
     let (nrandom, nvals, nsets) = match tier.as_str() {
-        "thorough" => (400, 40, 12),
+        "thorough" => (1500, 50, 12),
         "miri" => (0, 2, 1),
         _ => (40, 8, 3),
     };
